@@ -127,7 +127,13 @@ func (s CallableSchema) CallSignal(
 			Message: fmt.Sprintf("Invalid step called: %s", stepID),
 		}
 	}
-	unserializedInputData, err := step.SignalHandlers()[signalID].DataSchema().Unserialize(serializedInputData)
+	signalHandler, ok := step.SignalHandlers()[signalID]
+	if !ok || signalHandler == nil {
+		return BadArgumentError{
+			Message: fmt.Sprintf("Invalid signal '%s' called on step '%s'", signalID, stepID),
+		}
+	}
+	unserializedInputData, err := signalHandler.DataSchema().Unserialize(serializedInputData)
 	if err != nil {
 		return InvalidInputError{err}
 	}
